@@ -1,5 +1,6 @@
 #!/bin/bash
-# c13_race.sh [seed] [n]: supporting run for property C13 (not part of ./check):
+# c13_race.sh [seed] [n]: supporting run for property C13 (the lifecycle driver is also run under
+# the race detector by ./check itself; this wrapper adds the unbounded driver and prints the reports):
 # builds the C13 concurrency drivers (lifecycle, unbounded) with the Go race
 # detector against /repo (or $VERIF_REPO) in a scratch directory, runs them,
 # and prints the number of DATA RACE reports and the first one.  A report is a
